@@ -100,7 +100,11 @@ func (c *queueClass_[V]) MakeFromArray(values []V) QueueLike[V] {
 }
 
 func (c *queueClass_[V]) MakeFromSequence(values Sequential[V]) QueueLike[V] {
-	var queue = c.Make()
+	var capacity = c.defaultCapacity_
+	if uint(values.GetSize()) > capacity {
+		capacity = uint(values.GetSize()) // The capacity must cover the initial values.
+	}
+	var queue = c.MakeWithCapacity(capacity)
 	var iterator = values.GetIterator()
 	for iterator.HasNext() {
 		var value = iterator.GetNext()
